@@ -1,9 +1,10 @@
 #!/venv/bin/python
 """Confirm an independently written seeded change and run the checks against it.
 
-usage: tools/eval_seeded.py <PID> <k> [--wt /tmp/wt/<PID>] [--no-tests]
+usage: tools/eval_seeded.py <PID> <k> [--wt /tmp/seed/wt_<PID>] [--src /tmp/seed/out/<PID>/<k>] [--no-tests]
+(<src> holds patch.diff, demo.py, notes.md as delivered by the independent sub-agent)
 Steps (all in the scratch worktree <wt>, never in /repo):
-  1. git apply out/m<k>.diff ; run the full test-suite (must be the baseline 125 passes) ; run the demo (must FAIL)
+  1. git apply <src>/patch.diff ; run the full test-suite (must be the baseline 125 passes) ; run the demo (must FAIL)
   2. git checkout -- . ; run the demo (must PASS)
   3. copy <wt>/sigpy with the patch applied to a mkdtemp dir and run all 20 checks with --repo ; report which fire
   4. store patch.diff, demo.py, meta.json (incl. what was run and which checks caught it) under /verif/seeded/<PID>-m<k>/
@@ -24,14 +25,16 @@ def sh(cmd, cwd, env=None, timeout=1800):
 def main():
     a = sys.argv[1:]
     pid, k = a[0], a[1]
-    wt = "/tmp/wt/" + pid
+    wt = "/tmp/seed/wt_" + pid
     if "--wt" in a:
         wt = a[a.index("--wt") + 1]
+    src = "/tmp/seed/out/%s/%s" % (pid, k)
+    if "--src" in a:
+        src = a[a.index("--src") + 1]
     run_tests = "--no-tests" not in a
-    out = os.path.join(wt, "out")
-    diff = os.path.join(out, "m%s.diff" % k)
-    demo = os.path.join(out, "m%s_demo.py" % k)
-    metaf = os.path.join(out, "m%s_meta.json" % k)
+    diff = os.path.join(src, "patch.diff")
+    demo = os.path.join(src, "demo.py")
+    metaf = os.path.join(src, "notes.md")
     for p in (diff, demo):
         if not os.path.exists(p):
             print("MISSING", p)
@@ -47,7 +50,7 @@ def main():
     imports = rc == 0
     tests = None
     if run_tests:
-        rc, o = sh("%s -m pytest -q -p no:cacheprovider --timeout=900 -x -q tests 2>&1 | tail -3" % PY, wt, env)
+        rc, o = sh("%s -m pytest -q -p no:cacheprovider --timeout=900 --continue-on-collection-errors 2>&1 | tail -3" % PY, wt, env)
         m = re.search(r"(\d+) passed", o)
         tests = int(m.group(1)) if m else -1
         failed = re.search(r"(\d+) failed", o)
@@ -74,24 +77,28 @@ def main():
         shutil.rmtree(tmp, ignore_errors=True)
     meta = {}
     if os.path.exists(metaf):
-        try:
-            meta = json.load(open(metaf))
-        except Exception:
-            meta = {"raw": open(metaf).read()[:500]}
+        meta = {"author_notes": open(metaf).read()[:4000]}
     ok_confirm = imports and rc_with != 0 and rc_without == 0 and (tests in (None, 125) and (not run_tests or tests_failed == 0))
-    print("== %s m%s  confirm=%s (imports=%s tests=%s demo_with=%s demo_without=%s)" % (pid, k, ok_confirm, imports, tests, rc_with, rc_without))
-    print("   summary:", meta.get("summary", "")[:200])
-    print("   needs  :", meta.get("needs", "")[:200])
+    print("== %s %s  confirm=%s (imports=%s tests=%s demo_with=%s demo_without=%s)" % (pid, k, ok_confirm, imports, tests, rc_with, rc_without))
+    print("   notes  :", " ".join(meta.get("author_notes", "").split())[:300])
     own = caught.get(pid)
     print("   own check %s: %s" % (pid, "exit %s %s" % (own[0], (own[1][0][:230] if own[1] else "")) if own else "SILENT (exit 0)"))
     others = {c: v for c, v in caught.items() if c != pid}
     if others:
         print("   also:", ", ".join("%s(exit %s)" % (c, v[0]) for c, v in sorted(others.items())))
     if ok_confirm:
-        dst = os.path.join(ROOT, "seeded", "%s-m%s" % (pid, k))
+        dst = os.path.join(ROOT, "seeded", "%s-%s" % (pid, k))
         os.makedirs(dst, exist_ok=True)
         shutil.copy(diff, os.path.join(dst, "patch.diff"))
         shutil.copy(demo, os.path.join(dst, "demo.py"))
+        if os.path.exists(metaf):
+            shutil.copy(metaf, os.path.join(dst, "notes.md"))
+        old = {}
+        if os.path.exists(os.path.join(dst, "meta.json")):
+            old = json.load(open(os.path.join(dst, "meta.json")))
+        meta = {k2: v for k2, v in old.items() if k2 in ("needs_to_manifest", "summary", "first_seen_caught_by")}
+        if "first_seen_caught_by" not in meta:
+            meta["first_seen_caught_by"] = sorted(c for c, v in caught.items() if v[0] == 1)
         meta.update({
             "breaks_property": pid,
             "confirmed": {"imports": imports, "tests_passed_with_change": tests, "demo_exit_with_change": rc_with, "demo_exit_without_change": rc_without,
